@@ -6,6 +6,8 @@ func runC11(c *core.Ctx) {
 	switch c.Scenario {
 	case "sparse-vector":
 		RunSparseVector(c)
+	case "sparse-matrix":
+		RunSparseMatrix(c)
 	default:
 		panic("unknown scenario " + c.Scenario)
 	}
@@ -55,6 +57,7 @@ func init() {
 		Engine: "B: shared-storage world simulator (sparse containers)",
 		Scenarios: []core.Scenario{
 			{Name: "sparse-vector", Weight: 1},
+			{Name: "sparse-matrix", Weight: 1},
 		},
 		Run:      runC11,
 		StepUnit: "operations by handles (container, live iterators, slices) on one sparse container",
